@@ -149,6 +149,30 @@ def enumerate_all(ck, tmp):
             ok = shown in (["suit-integrated-payloads"], ["suit-integrated-dependencies"])
         if not ok:
             fails.append({"input": inp, "observed": f"rendered as {shown!r}", "expected": f"rendered as {name!r}"})
+    # ---- names of key spaces that only ever appear INSIDE an unnamed map (text keys, component keys of a text map): rendered in context,
+    # both directions: bytes -> the registered name (and nothing else, e.g. no quoting) ; name -> the registered code
+    ctx_cases = []
+    for name, code in reg["spaces"].get("text", {}).get("entries", {}).items():
+        ctx_cases.append(("text", name, code, "SuitTextLMap", cbor2.dumps({code: "abc"}), lambda o: list(o), {name: "abc"},
+                          lambda t, c=code: list(cbor2.loads(t))))
+        ctx_cases.append(("text", name, code, "SuitTextMap", cbor2.dumps({"en": {code: "abc"}}), lambda o: list(o.get("en", {})), {"en": {name: "abc"}},
+                          lambda t: list(cbor2.loads(t)["en"])))
+    for name, code in reg["spaces"].get("component-text", {}).get("entries", {}).items():
+        comp = [b"M", cbor2.dumps(2)]
+        ctx_cases.append(("component-text", name, code, "SuitTextLMap", cbor2.dumps({tuple(comp): {code: "abc"}}),
+                          lambda o: [kk for v in o.values() if isinstance(v, dict) for kk in v], {json.dumps(["M", 2]): {name: "abc"}},
+                          lambda t: [kk for v in cbor2.loads(t).values() for kk in v]))
+    for sp, name, code, cname, data, shown_keys, desc, written in ctx_cases:
+        ires = interp.run_impl(interp.impl_parse, cname, data)
+        ck.count("context", (sp, name, cname, "parse"), nontrivial=True, sample={"space": sp, "name": name, "inside": cname})
+        if ires[0] != "ok" or shown_keys(ires[1]) != [name]:
+            fails.append({"input": {"space": sp, "class": cname, "bytes": data.hex(), "name": name},
+                          "observed": f"rendered as {shown_keys(ires[1]) if ires[0] == 'ok' else ires[1]!r}", "expected": f"rendered as {name!r}"})
+        eres = interp.run_impl(interp.impl_encode, cname, desc)
+        ck.count("context", (sp, name, cname, "encode"), nontrivial=True, sample={"space": sp, "name": name, "inside": cname})
+        if eres[0] != "ok" or written(eres[1]) != [code]:
+            fails.append({"input": {"space": sp, "class": cname, "description": desc},
+                          "observed": f"written under {written(eres[1]) if eres[0] == 'ok' else eres[1]!r}", "expected": f"registered integer {code}"})
     # ---- every name of the vocabulary in every other closed key space
     for_reqs, for_meta = [], []
     for sp, d in reg["spaces"].items():
